@@ -519,7 +519,7 @@ pub fn run(tier: Tier, seed: u64) -> i32 {
             "comparability for the flip law is decided by type: same scalar type, string~regex, number~range of its type, scalar `in` list of scalars".into(),
         ],
     };
-    execute("C03", tier, seed, spec, &replay, &|run: &Run| {
+    execute("C03", tier, seed, spec, &replay, &|run: &Session| {
         let total = lhs_values(tier).len() * query_shapes().len() * CTX.len();
         run.run_enum("laws", total, |i| enum_case(tier, i));
         run.run_enum("rule-references", 6, ref_case);
